@@ -22,6 +22,14 @@ CHECKS = {
         technique="gate walk with seeded predicate facts + dataflow slices + callee identity (completeness primitive) on SSA",
         text="Level 'other': decides that the namespace verifier derives the row set locally from trusted roots, binds count/order/index of the response rows to it, verifies every row inside a fully gated loop, that the accepting gate resolves to nmt's completeness-checking VerifyNamespace (range path: completeness flag constant and forwarded unchanged), and that the four inconsistent shares/proof combinations cannot reach a success return (path-sensitive walk seeded with the combination). NMT soundness and producer equality are not decided.",
         design="DESIGN.md §3 C02"),
+    "C04": dict(
+        technique="who-may-write / provenance over SSA (cursor vs. persisted job kinds read from newCheckpoint's own code), single-owner call-site enumeration, gate and barrier walks (stop ordering, job-created-implies-run)",
+        text="Level 'other', structural part only: decides that every job kind created while the catch-up cursor advances is kept covered by the checkpoint writer (kinds are read from the checkpoint code, not frozen), that the persisted resume range is copied unchanged, that coordinator state is written only from the coordinator goroutine's functions, that the final checkpoint is taken after cancel and a successful wait, and that a created job is always run. The invariant 'every height is in exactly one set' over interleavings and crash points is not decided.",
+        design="DESIGN.md §3 C04"),
+    "C13": dict(
+        technique="barrier/gate walks on SSA (result-or-own-cancellation, limit guards, done-check after mutation) + map read-before-delete ordering + dataflow provenance of retry attempts",
+        text="Level 'other', four structural conditions: a worker returns without reporting only behind a test of its own context; every runWorker call is guarded by the configured concurrency predicates (shape checked) and created jobs are run; every state mutation that can complete catch-up is followed by checkDone before the coordinator blocks; retry attempts are read before cleanup, derive from the previous attempt and only increment. Liveness under fairness and statistics-vs-reality are not decided.",
+        design="DESIGN.md §3 C13"),
     "C18": dict(
         technique="encoder/decoder layout extraction from the typed syntax tree + constant evaluation + interval bound on narrowing conversions + gate walk + panic reachability over the call graph",
         text="Level 'other': decides, for every ID codec pair, that encoder and decoder agree field by field on order, width and offsets and on the Size constant; that no uintN() conversion in an encoder can truncate a field at the protocol's maximum square size; that decoders return values only behind the exact-length test and a successful Validate; that no explicit panic is reachable from any decoder entry point; that proto converters nil-check. Round-trip equality on values is not decided.",
